@@ -1,6 +1,10 @@
-// C12 protobuf part: a reflection-managed ArenaExample (test/proto/arena_example.proto) under a real SwissManager,
+// C12 protobuf part: ArenaExample (test/proto/arena_example.proto) managed by a real SwissManager BOTH ways -
+//   typed : manager.create_object<ArenaExample>()                         (ReusableTraits<T : Message>)
+//   base  : manager.create_object<google::protobuf::Message>(creator)     (ReusableTraits<Message>, reflection path)
 // against an ordinary heap message driven by the same setters (monitors only, no model).
-// stdin: "<id> P <interval> <cycles> <seed>"; stdout: "<id> <observations> | monitor=0/1 ..."
+// stdin: "<id> P <interval> <cycles> <seed> <vary>"   vary=1: heavy (nested sub-messages, strings, repeated) and light
+//        (scalars only) workloads alternate, so fields used in one cycle are untouched in the next
+// stdout: "<id> <observations> | monitor_t=0/1 ... monitor_b=0/1 ..."   (_t typed, _b base-registered)
 #include "babylon/reusable/manager.h"
 #include "babylon/reusable/message.h"
 
@@ -10,6 +14,7 @@
 #include <iostream>
 #include <sstream>
 #include <string>
+#include <vector>
 
 using namespace babylon;
 
@@ -42,49 +47,100 @@ static void fill(ArenaExample& m, int depth) {
   }
 }
 
+// the workload of cycle c: heavy = random fill, with singular sub-messages nested two levels forced for odd seeds
+static void workload(ArenaExample& m, uint64_t seed, int c, bool vary) {
+  rng_state = seed;
+  if (vary && c % 2 == 0) {   // light cycle: scalars only, everything used before stays untouched
+    m.set_p(rnd());
+    if (rnd() % 2) m.set_e(ArenaExample::ENUM1);
+    return;
+  }
+  if (seed & 1) {
+    m.mutable_m()->mutable_m()->set_p(rnd());
+    m.mutable_m()->set_s(std::string(20 + rnd() % 30, 'q'));
+    m.add_rm()->mutable_m()->mutable_m()->set_s("nested");
+  }
+  fill(m, 0);
+}
+
+// equal to a freshly constructed message: no has-bit at any level, nothing repeated, zero bytes, same text, default back
+static bool is_fresh(const ArenaExample& m) {
+  static const ArenaExample empty;
+  return m.SerializeAsString() == empty.SerializeAsString() && m.ByteSizeLong() == 0 &&
+         m.DebugString() == empty.DebugString() && m.ds() == "10086" && !m.has_p() && !m.has_s() && !m.has_m() &&
+         !m.has_e() && !m.has_ds() && m.rs_size() == 0 && m.rm_size() == 0 && m.rp_size() == 0 && m.re_size() == 0;
+}
+
+struct Verdict { bool same = true, fresh = true, acc_ok = true, on_arena = true, no_growth = true; std::string obs; };
+
+template <class ACC, class GET>
+static Verdict drive(SwissManager& manager, ACC acc, GET get, size_t itv, int cycles, uint64_t seed, bool vary) {
+  Verdict v;
+  size_t since = 0;
+  int first_recreate = -1;
+  std::vector<size_t> used_after;
+  for (int c = 1; c <= cycles; ++c) {
+    if (!acc || !manager.resource().contains(acc.get())) { v.acc_ok = false; break; }
+    ArenaExample* m = get(acc);
+    if (!is_fresh(*m)) v.fresh = false;          // also before the first use
+    ArenaExample ref;
+    workload(*m, seed, c, vary);
+    workload(ref, seed, c, vary);
+    if (m->SerializeAsString() != ref.SerializeAsString() || m->ds() != ref.ds() || m->DebugString() != ref.DebugString())
+      v.same = false;
+    if (m->GetArena() == nullptr) v.on_arena = false;
+    v.obs += " W=" + std::to_string(ref.ByteSizeLong());
+    manager.clear();
+    ++since;
+    bool expect_recreate = since >= itv;
+    if (expect_recreate) { since = 0; if (first_recreate < 0) first_recreate = c; }
+    if (!acc || !manager.resource().contains(acc.get())) { v.acc_ok = false; break; }
+    m = get(acc);
+    if (!is_fresh(*m)) { v.fresh = false; v.obs += " C!" + std::to_string(m->ByteSizeLong()) + (expect_recreate ? "r" : "c"); }
+    used_after.push_back(manager.resource().space_used());
+    size_t period = itv == 0 ? 1 : itv;
+    int prev = c - (int)period;
+    // same phase of the recreate period, both after the second recreate: what the resource holds does not grow
+    if (!vary && first_recreate > 0 && prev >= first_recreate + (int)period && used_after[c - 1] > used_after[prev - 1])
+      v.no_growth = false;
+  }
+  return v;
+}
+
 int main() {
   std::string line;
   while (std::getline(std::cin, line)) {
     std::istringstream is(line);
     std::string id, mode;
-    size_t itv; int cycles; uint64_t seed;
+    size_t itv; int cycles; uint64_t seed; int vary = 0;
     if (!(is >> id >> mode >> itv >> cycles >> seed)) continue;
-    bool same = true, fresh = true, acc_ok = true, no_growth = true, on_arena = true;
-    std::string out = id;
+    is >> vary;
+    Verdict t, b;
     {
       SwissManager manager;
       manager.set_recreate_interval(itv);
       auto acc = manager.create_object<ArenaExample>();
-      ArenaExample empty;
-      size_t since = 0;
-      int first_recreate = -1;
-      std::vector<size_t> used_after;
-      for (int c = 1; c <= cycles; ++c) {
-        if (!acc || !manager.resource().contains(acc.get())) { acc_ok = false; break; }
-        ArenaExample ref;
-        rng_state = seed; fill(*acc, 0);
-        rng_state = seed; fill(ref, 0);
-        if (acc->SerializeAsString() != ref.SerializeAsString() || acc->ds() != ref.ds()) same = false;
-        if (acc->GetArena() == nullptr) on_arena = false;
-        out += " W=" + std::to_string(ref.ByteSizeLong());
-        manager.clear();
-        ++since;
-        bool expect_recreate = since >= itv;
-        if (expect_recreate) { since = 0; if (first_recreate < 0) first_recreate = c; }
-        if (!acc || !manager.resource().contains(acc.get())) { acc_ok = false; break; }
-        // equal to a freshly constructed message: no has-bit, nothing repeated, zero bytes on the wire, default string back
-        if (acc->SerializeAsString() != empty.SerializeAsString() || acc->ByteSizeLong() != 0 || acc->ds() != "10086" ||
-            acc->has_p() || acc->has_s() || acc->has_m() || acc->has_e() || acc->has_ds() || acc->rs_size() != 0 ||
-            acc->rm_size() != 0 || acc->rp_size() != 0 || acc->re_size() != 0) fresh = false;
-        used_after.push_back(manager.resource().space_used());
-        size_t period = itv == 0 ? 1 : itv;
-        int prev = c - (int)period;
-        // same phase of the recreate period, both after the second recreate: what the resource holds does not grow
-        if (first_recreate > 0 && prev >= first_recreate + (int)period && used_after[c - 1] > used_after[prev - 1]) no_growth = false;
-        out += " C=" + std::to_string(used_after.back());
-      }
+      t = drive(manager, acc, [](ReusableAccessor<ArenaExample>& a) { return a.get(); }, itv, cycles, seed, vary != 0);
     }
-    printf("%s | same=%d fresh=%d acc_ok=%d on_arena=%d no_growth=%d\n", out.c_str(), same, fresh, acc_ok, on_arena, no_growth);
+    {
+      SwissManager manager;
+      manager.set_recreate_interval(itv);
+      auto acc = manager.create_object<::google::protobuf::Message>([](SwissMemoryResource& resource) {
+        ::google::protobuf::Arena& arena = resource;
+#if GOOGLE_PROTOBUF_VERSION >= 5026000
+        ::google::protobuf::Message* result = ::google::protobuf::Arena::Create<ArenaExample>(&arena);
+#else
+        ::google::protobuf::Message* result = ::google::protobuf::Arena::CreateMessage<ArenaExample>(&arena);
+#endif
+        return result;
+      });
+      b = drive(manager, acc,
+                [](ReusableAccessor<::google::protobuf::Message>& a) { return static_cast<ArenaExample*>(a.get()); }, itv,
+                cycles, seed, vary != 0);
+    }
+    printf("%s T:%s B:%s | same_t=%d fresh_t=%d acc_ok_t=%d on_arena_t=%d no_growth_t=%d same_b=%d fresh_b=%d acc_ok_b=%d "
+           "on_arena_b=%d no_growth_b=%d\n", id.c_str(), t.obs.c_str(), b.obs.c_str(), t.same, t.fresh, t.acc_ok, t.on_arena,
+           t.no_growth, b.same, b.fresh, b.acc_ok, b.on_arena, b.no_growth);
     fflush(stdout);
   }
   return 0;
